@@ -1,6 +1,6 @@
 """C47: a validator of Paje trace files (the format SimGrid's tracing writes; https://github.com/schnorr/pajeng/wiki).
 
-    validate(text) -> (violations [(signature, message)], stats {...})
+    validate(text) -> (violations [(signature, message, container name or None)], stats {...})
 
 What is checked (the statement of C47 and the Paje file format it relies on):
   * header: every event of the body is defined by a %EventDef block, with as many fields as the definition declares;
@@ -90,13 +90,15 @@ class _Validator:
         self.cont = {"0": {"type": "0", "alive": True, "name": "0", "line": 0}}
         self.stacks = {}                          # (container, state type) -> [values]
         self.links = {}                           # (type, key) -> [n starts, n ends, first line]
+        self.names = {}                           # container name -> number of containers created with it (an actor that changes host gets a new one)
+        self.deferred = []                        # (sig, msg, container name): the signature depends on what happens later
         self.last = None                          # (time, line, kind) of the running maximum
         self.stats = {"events": 0, "containers": 0, "destroyed": 0, "push": 0, "pop": 0, "links": 0, "variables": 0, "kinds": set(),
                       "max_depth": 0, "created_after_start": 0, "new_events": 0}
 
-    def add(self, sig, msg):
+    def add(self, sig, msg, container=None):
         if len(self.bad) < self.max:
-            self.bad.append((sig, msg))
+            self.bad.append((sig, msg, container))
 
     def alive(self, alias, ln, name, role="container"):
         c = self.cont.get(alias)
@@ -169,6 +171,7 @@ class _Validator:
             elif old is not None:
                 add("container-alias-reused", "line %d: alias %r was the container %r destroyed at line %d" % (ln, f["Alias"], old["name"], old["dead_line"]))
             self.cont[f["Alias"]] = {"type": f["Type"], "alive": True, "name": f["Name"], "line": ln, "parent": f["Container"]}
+            self.names[f["Name"]] = self.names.get(f["Name"], 0) + 1
             if float(f["Time"]) > 0:
                 stats["created_after_start"] += 1
         elif name == "PajeDestroyContainer":
@@ -187,8 +190,8 @@ class _Validator:
                     % (ln, f["Name"], c["name"], [self.cont[a]["name"] for a in kids]))
             for (ca, st), stack in self.stacks.items():
                 if ca == f["Name"] and stack:
-                    add("state-left-pushed-at-destroy", "line %d: container %r (%s) is destroyed with %d state(s) %r still pushed on state type %r"
-                        % (ln, f["Name"], c["name"], len(stack), stack, st))
+                    self.deferred.append(("state-left-pushed-at-destroy", "line %d: container %r (%s) is destroyed with %d state(s) %r still pushed on state type %r"
+                                          % (ln, f["Name"], c["name"], len(stack), stack, st), c["name"], self.names.get(c["name"], 0)))
                     del stack[:]
             c["alive"] = False
             c["dead_line"] = ln
@@ -226,7 +229,9 @@ class _Validator:
             elif name == "PajePopState":
                 stats["pop"] += 1
                 if not stack:
-                    add("pop-on-empty-state-stack", "line %d: PajePopState on container %r (%s), state type %r: nothing is pushed"
+                    moved = c is not None and self.names.get(c["name"], 0) >= 2
+                    add(("host-change:" if moved else "") + "pop-on-empty-state-stack",
+                        "line %d: PajePopState on container %r (%s), state type %r: nothing is pushed"
                         % (ln, f["Container"], c["name"] if c else "?", f["Type"]))
                 else:
                     stack.pop()
@@ -269,14 +274,18 @@ class _Validator:
                 self.add("link-never-ended", "key %r of link type %r is started (line %d) but never ended" % (key, ty, rec[2]))
         for (ca, st), stack in sorted(self.stacks.items()):
             if stack:
-                self.add("state-left-pushed-at-end", "container %r (%s): %d state(s) %r still pushed on state type %r at the end of the trace"
-                         % (ca, self.cont.get(ca, {}).get("name"), len(stack), stack, st))
+                nm = self.cont.get(ca, {}).get("name")
+                later = any(k["name"] == nm and k["line"] > self.cont[ca]["line"] for k in self.cont.values()) if ca in self.cont else False
+                self.add(("host-change:" if later else "") + "state-left-pushed-at-end",
+                         "container %r (%s): %d state(s) %r still pushed on state type %r at the end of the trace" % (ca, nm, len(stack), stack, st), nm)
+        for sig, msg, nm, count_then in self.deferred:
+            self.add(("host-change:" if self.names.get(nm, 0) > count_then else "") + sig, msg, nm)
 
 
 def validate(text, max_problems=30):
     tr = parse(text)
     v = _Validator(max_problems)
-    v.bad.extend(tr.problems[:max_problems])
+    v.bad.extend((a, b, None) for a, b in tr.problems[:max_problems])
     for ln, name, f in tr.events:
         try:
             v.one(ln, name, f)
